@@ -60,7 +60,10 @@ def cases(tier, seed):
                "maxfun": int(gen.pick(rng, [100000, 100000, 60, 120, 250])), "rel": gen.pick(rng, [None, None, 1e-6, 1e-3, 1e-2]),
                # an objective in huge units (values ~1e17..1e19: curvature ratios s.y/y.y far below the default threshold) run with a
                # curvature threshold lowered accordingly and an update function that changes nothing
-               "huge_units": float(10 ** rng.uniform(16.5, 19.0)) if (i % 6 == 1) else None}
+               "huge_units": float(10 ** rng.uniform(16.5, 19.0)) if (i % 6 == 1) else None,
+               # (some runs with non-default line-search constants and a user step cap: identical in the run and in its restarts)
+               "ls": {"ftol_linesearch": float(gen.pick(rng, [1e-4, 1e-2, 0.1])), "gtol_linesearch": float(gen.pick(rng, [0.5, 0.99])),
+                      "xtol_linesearch": float(gen.pick(rng, [1e-8, 1e-3, 0.3])), "max_steplength": float(gen.pick(rng, [1e10, 1e10, 2.0]))} if i % 7 == 3 else None}
 
 
 def run_refresh(spec, out):
@@ -175,6 +178,9 @@ def run(spec):
     P = gen.make_problem(spec["problem"])
     base = dict(jac=spec.get("jac", "callable"), maxcor=spec["maxcor"], maxls=spec["maxls"], ftol=0.0, gtol=1e-12,
                 maxfun=spec.get("maxfun", 100000), eps=spec.get("eps", 1e-8), eps_SY=spec.get("eps_SY", 2.2e-16), x0_same_object=True)
+    if spec.get("ls"):
+        base.update(spec["ls"])
+        out.count("problems_with_non_default_line_search_constants")
     if spec.get("huge_units"):
         base.update(jac="callable", explicit_scale=float(spec["huge_units"]), eps_SY=1e-40, ufd="identity", maxfun=100000)
         out.count("problems_in_huge_units_with_lowered_curvature_threshold_and_inert_update_function")
